@@ -100,6 +100,37 @@ PROPS = {
                      "proved contract of _remove_pivot_segment (coverage = input minus the open zone, for all reals)"],
         trusted=S_COMMON + ["model: python lists (append / pop)", "model: pyannote Segment", "np.random support (oracle side only)"],
     ),
+    "C03": dict(
+        functions=[DS + "AbstractDissimilarity._compute_alignment_disorders", DS + "AbstractDissimilarity._build_arrays_continuum",
+                   CT + "Continuum.avg_num_annotations_per_annotator", CT + "Continuum.num_units", CT + "Continuum.num_annotators"]
+                  + ALIGN_CTORS + [AL + "SoftAlignment.__init__", CT + "Continuum.get_best_alignment", CT + "Continuum.get_best_soft_alignment"],
+        oracles=[AL + "Alignment.compute_disorder"],
+        bounded=[dict(oracle=AL + "Alignment.compute_disorder",
+                      what="Alignment.compute_disorder / .disorder / _build_arrays_alignment / UnitaryAlignment.compute_disorder are not under "
+                           "contract yet: best, soft and hand-built alignments (attached or not, annotators listed in shuffled order) of random "
+                           "grid continua with 2..5 annotators, every built-in dissimilarity family: cached, per-unitary and recomputed "
+                           "disorders against the definition written from the statement")],
+        design_ref="DESIGN.md section 4 C03, appendix A.3",
+        not_decided=["D2/D3/D5 (Alignment.compute_disorder, Alignment.disorder, order independence of _build_arrays_alignment) are bounded only"],
+        trusted=S_COMMON + T_SOLVER,
+    ),
+    "C04": dict(
+        functions=[DS + q for q in ("PositionalSporadicDissimilarity.compile_d_mat.<locals>.d_mat", "PositionalSporadicDissimilarity.d",
+                                    "AbsoluteCategoricalDissimilarity.compile_d_mat.<locals>.d_mat", "AbsoluteCategoricalDissimilarity.d",
+                                    "PrecomputedCategoricalDissimilarity.compile_d_mat.<locals>.d_mat",
+                                    "CombinedCategoricalDissimilarity.compile_d_mat.<locals>.d_mat")],
+        oracles=[DS + "CombinedCategoricalDissimilarity.__init__"],
+        bounded=[dict(oracle=DS + "CombinedCategoricalDissimilarity.__init__",
+                      what="constructors (class invariant: the delta_empty captured by each compiled kernel is the object's), Precomputed.d, "
+                           "Combined.d, Lambda/Ordinal/Numerical/Levenshtein matrices are not under contract yet: every class, delta_empty in "
+                           "{0.5,1,2,3}, shuffled label order, 1..300 categories, components built with another delta_empty: d_mat(encoded) == "
+                           "d(units) == documented formula, symmetric, >= 0, 0 on identical units")],
+        design_ref="DESIGN.md section 4 C04",
+        not_decided=["Levenshtein DP == edit distance (not part of the statement)", "float32 rounding (S2)",
+                     "class invariant kappa == delta_empty established by the constructors: bounded only"],
+        trusted=S_COMMON + ["model: pyannote Segment.duration", "closure semantics: captured names are declared and checked against the "
+                            "free variables of the closure body"],
+    ),
     "C07": dict(
         functions=[NU + "iter_tuples", NU + "extend_right_alignments", NU + "extend_right_disorders",
                    DS + "AbstractDissimilarity._get_all_valid_alignments"],
